@@ -6,7 +6,16 @@ def _c15_out_kind(o):
     if o.startswith(("err ", "absent")):
         return "payload " + o
     if o.startswith("P"):
-        return "cs / csa (refresh history)"
+        first = o.split(";", 1)[0]
+        if "~" in first:
+            return "cs/csa/csm: ClusterState::new with a failed keyspace fetch"
+        if "~E" in o:
+            return "cs/csa/csm: refresh with a failed keyspace fetch, no older version (dropped)"
+        if "~e" in o:
+            return "cs/csa/csm: refresh with a failed keyspace fetch, older version reused"
+        return "cs/csa/csm: refresh history, every fetch ok"
+    if o.startswith("learn "):
+        return "e2e learn"
     if o and o[0].isdigit():
         return "exh digest"
     if "panic" in o:
@@ -16,17 +25,18 @@ def _c15_out_kind(o):
 
 PROPS["C15"] = dict(
     level_text="Theorems (Props/C15.lean) prove, for every history of inserts and maintenance steps of any length over unbounded tokens: the tablet list stays sorted with prev.last < next.first and first <= last (so the standard library's binary search - modelled loop by loop - is applied to a partitioned list: its precondition is a lemma, not an assumption); tablet_for_token answers exactly the latest insert covering the token unless a later insert overlapped it or maintenance discarded it (refinement to a history-based spec; never a stale answer); an insert removes exactly the overlapping tablets; per-datacenter replicas are the order-preserving filter of the full replica list; an accepted payload (a, b] becomes [a+1, b] with a < b and is rejected iff b <= a. The table-level theorems are lifted to the TabletsInfo level (every table of the map is the run of its own valid sub-history: gate on removed/recreated/has_unknown_replicas, dropped tables, empty entries) and to the ClusterState level: for every history of learnt tablets and metadata refreshes (old peers -> new peers with arbitrary overlap, hosts replaced in one refresh, Node objects re-created) every replica answered by any lookup is a host of the new known_nodes and the Node object registered there, and tablets untouched by the refresh are preserved; one update_tablets call with a whole batch is the sequence of its single learns in order (learn_batch_eq_foldl, brun_eq_crun: latest wins inside a batch). The models are tied to tablets.rs and cluster/state.rs by a differential run (exhaustive histories over a 6-token universe, long random histories over full i64, maintenance, TabletsInfo, refresh histories on the real ClusterState, payload bytes) with a brute-force history shadow as oracle.",
-    level_note="Trusted: Lean kernel + {propext, Classical.choice, Quot.sound}; hand-written models Model/Tablets.lean, Model/TabletsRefresh.lean (tie = differential harness through the cfg(scylla_verif) pass-throughs VerifTablets / raw_tablet_from_payload / cluster_from_topology_with_tablets / cluster_refresh / ClusterState::verif_update_tablets); Arc<Node> identity modelled by a generation counter; HashMaps as association lists (only looked up by key, dumps sorted).",
+    level_note="Trusted: Lean kernel + {propext, Classical.choice, Quot.sound}; hand-written models Model/Tablets.lean, Model/TabletsRefresh.lean (tie = differential harness through the cfg(scylla_verif) pass-throughs VerifTablets / raw_tablet_from_payload / cluster_state_general / cluster_state_filtered / cluster_refresh_topology[_accepting|_filtered] / ClusterState::verif_update_tablets / verif_tablet_tables; the connection's learning glue by an end-to-end family on a real Session (e2e learn)); Arc<Node> identity modelled by a generation counter; HashMaps as association lists (only looked up by key, dumps sorted).",
     lean_modules=["ScyllaVerif.Props.C15"],
-    rule="case = one history (tab), one refresh history on a ClusterState (cs: rejecting host filter, csa: accepting), one payload cell (payload) or one exhaustive subtree (exh); distinct case lines whose implementation output contains at least one answered lookup / non-empty dump / accepted-or-rejected payload / visited history count as non-trivial",
-    trivial=lambda c, o: o in ("-", "bad-case", "absent") or (c.startswith(("tab ", "cs ", "csa ")) and ":" not in o and "." not in o),
+    rule="case = one history (tab), one refresh history on a ClusterState (cs: rejecting host filter, csa: accepting, csm: per-peer verdicts), one end-to-end learning history on a real Session (e2e learn), one payload cell (payload) or one exhaustive subtree (exh); distinct case lines whose implementation output contains at least one answered lookup / non-empty dump / accepted-or-rejected payload / visited history count as non-trivial",
+    trivial=lambda c, o: o in ("-", "bad-case", "absent") or (c.startswith(("tab ", "cs ", "csa ", "csm ")) and ":" not in o and "." not in o),
     out_kind=_c15_out_kind,
     trusted=[
-        "Model/Tablets.lean transcribes tablets.rs:66-122 (payload), 135-169, 252-324, 369-469, 523-538, 598-662 and core::slice::binary_search_by/partition_point of the toolchain's std (1.95: fixed-iteration base/size loop)",
-        "Model/TabletsRefresh.lean transcribes cluster/state.rs:273-341 (calculate_new_topology: which Node objects are kept / re-created), 375-406 (perform_tablets_maintenance: removed and re-created hosts from old vs new known_nodes), 205-270 (new / new_updated / new_with_updated_topology), 647-675 (update_tablets: the loop over ONE batch in order, translator over known_nodes built once)",
-        "calculate_new_topology is driven on both sides of its match: `cs` histories with a host filter rejecting every peer (pool-less nodes that read as not enabled: the `(false, _)` arms), `csa` histories with a filter accepting every peer and nodes enabled by the hook's state override (reuse / inherit_with_ip_changed / Node::new arms; the new pools never connect, nothing listens); a node's address is its position in the peer list",
+        "Model/Tablets.lean transcribes tablets.rs:66-122 (payload), 135-169, 252-334, 379-479, 533-548, 608-672 and core::slice::binary_search_by/partition_point of the toolchain's std (1.95: fixed-iteration base/size loop)",
+        "Model/TabletsRefresh.lean transcribes cluster/state.rs:275-341 (calculate_new_topology: which Node objects are kept / re-created), 375-406 (perform_tablets_maintenance: removed and re-created hosts from old vs new known_nodes), 172-201 (new), 204-240 (new_updated), 242-270 (new_with_updated_topology), 647-675 (update_tablets: the loop over ONE batch in order, translator over known_nodes built once)",
+        "calculate_new_topology (state.rs:291-331) is driven in all four arms: `cs` (filter rejects every peer, nodes not enabled), `csa` (filter accepts every peer, nodes enabled), `csm` (per-peer verdicts that change between refreshes: an enabled old node meets a rejecting filter - :304 - and a disabled one an accepting filter - :324); in C15's output a node made by inherit_with_ip_changed is indistinguishable from one made by Node::new (both are new objects: the tablets must point to them)",
+        "Connection::update_tablets_from_response (network/connection.rs:1973-1996, callers 1092-1098 / 1136-1140) = Model/TabletsRefresh.lean tabletFromResponse (tabletFromResponse_some / _malformed / _nothing); tied by the `e2e learn` family only (a real Session on the mock cluster, three tables, well-formed / malformed / absent payloads, an unprepared query) through a shadow oracle - e2e lines are echoed by the model driver",
         "resolve_metadata_keyspaces (state.rs:345-373) = Model/TabletsRefresh.lean resolveKeyspaces / refreshFetched (a failed fetch reuses the previous state's keyspace or drops it; refresh_fetch_ok / refresh_fetch_failed_old / refresh_fetch_failed_no_old), driven by the `!e` schema of the `P` ops through cluster_state_general",
-        "materialized views: tablets.rs 609-613 (`tables.contains_key || views.contains_key`) and 623 (`.chain(ks.views.keys())`) are modelled as membership in / iteration over `tables ++ views` (KsMeta.entry, Info.maintenanceKs; maintenanceKs_entry_iff) and driven with tables and views apart at TabletsInfo level (info_maintenance_with_views) and through the real ClusterState (cluster_refresh_with_views)",
+        "materialized views: tablets.rs 627-628 (`tables.contains_key || views.contains_key`) and 639-641 (`.chain(ks.views.keys())`) are modelled as membership in / iteration over `tables ++ views` (KsMeta.entry, Info.maintenanceKs; maintenanceKs_entry_iff) and driven with tables and views apart at TabletsInfo level (info_maintenance_with_views) and through the real ClusterState (cluster_refresh_with_views)",
         "new_with_updated_topology (state.rs:242-270) = refresh with the keyspaces of the previous state (refreshTopology), driven by the `N` op through cluster_refresh_topology; the tablet branch of ReplicaLocator::replicas_for_token (locator/mod.rs:111-124) is Model/TabletsRefresh.lean locatorTabletReplicas (the vnode fallback for tables outside the tablet map is not this property: printed as `notable`)",
         "learnBatch keeps folding after a panicking add_tablet while the Rust loop is unwound: unreachable for non-empty ranges (learnBatch_no_panic, infoInv_brun); learn_batch_eq_foldl is an unfolding of the model's definition - that the Rust loop processes every item in order without skipping repeated keys is checked by the `B` cases of the differential run only",
         "Vec::drain(left..right) with left > right panics before mutating (only reachable with an ill-formed tablet first > last, which from_custom_payload never produces); the model's add returns `none` there and the driver prints `panic`",
@@ -35,7 +45,10 @@ PROPS["C15"] = dict(
         "every inserted tablet has first <= last (proved for everything from_custom_payload accepts: payload_bytes_valid); tokens are unbounded integers in the theorems (the code compares i64 only, the +1 overflow is excluded by payload_range)",
     ],
     partial=[
-        "in the `csa` histories a node is `enabled` because the hook imposes it (Node::verif_override_state), not because a connection pool is up: how is_enabled() follows the pool's life cycle is outside C15 (C10/C12)",
+        "in the `csa` / `csm` histories a node is `enabled` because the hook imposes it (Node::verif_override_state, set to the filter's verdict), not because a connection pool is up: how is_enabled() follows the pool's life cycle is outside C15 (C10/C12)",
+        "schema inputs are taken as given: which keyspaces a fetch returns (SchemaMetadataFetchMode, keyspaces_to_fetch), how `tablet_based` is derived from system_schema.scylla_keyspaces.initial_tablets and where a per-keyspace Err comes from (metadata/fetching.rs) are not modelled; consequence recorded as refresh_without_schema_drops_all: with schema fetching disabled every refresh empties the tablet map",
+        "a full tablet channel (capacity 8192; send().await vs try_send) and the cluster worker's recv_many / clone / publish loop (cluster/worker.rs:295-322) are not driven by C15 (the worker side is C19's)",
+        "ReplicaSet::PlainSharded beyond iteration (len / get / nth / size_hint / ReplicasOrdered, locator/mod.rs) is not exercised: C15 reads the tablet branch through `into_iter` only",
     ],
     shrink=dict(head_words=1, sep=";"),
     chunk=1500,
